@@ -18,7 +18,7 @@ ELS = {1: "deuterium", 2: "helium", 5: "carbon", 6: "carbon", 8: "neon", 9: "neo
 _SCENES = {}
 
 
-def scene(mix, shape, D, step_cm=50, flow=(0, 0, 0)):
+def scene(mix, shape, D, step_cm=50, flow=(0, 0, 0), prior="none"):
     from raysect.core import Vector3D, translate, rotate_y, rotate_z
     from raysect.optical import World
     from cherab.core import Plasma, Species, Beam
@@ -27,7 +27,7 @@ def scene(mix, shape, D, step_cm=50, flow=(0, 0, 0)):
     from cherab.core.distribution import Maxwellian
     from cherab.core.math import Constant3D, ConstantVector3D
     from cherab.core.model import SingleRayAttenuator
-    key = json.dumps([mix, shape, step_cm, list(flow)])
+    key = json.dumps([mix, shape, step_cm, list(flow), prior])
     if key in _SCENES:
         return _SCENES[key]
     calls = []
@@ -53,10 +53,22 @@ def scene(mix, shape, D, step_cm=50, flow=(0, 0, 0)):
     vb = math.sqrt(2 * ENERGY * K.e / K.atomic_mass)
     # ion bulk velocity: flow (in tenths of the beam speed, beam frame) expressed in the plasma frame
     vion = ConstantVector3D(Vector3D(*[f * vb / 10.0 for f in flow]).transform(xf))
-    pl.composition = [Species(getattr(E, ELS[zc]), zc, Maxwellian(Constant3D(n * NU), Constant3D(TI), vion, getattr(E, ELS[zc]).atomic_weight * 1.66053906660e-27))
+    moved = prior == "moved"
+    if moved:
+        # the plasma has three times the densities beyond the plane one half metre to the side of the beam's final axis
+        from raysect.core import Point3D
+        from raysect.core.math.function.float.function3d.autowrap import PythonFunction3D
+        o, u = Point3D(0, 0, 0).transform(xf), Vector3D(1, 0, 0).transform(xf)
+
+        def dens(n):
+            return PythonFunction3D(lambda x, y, z: (3.0 if (x - o.x) * u.x + (y - o.y) * u.y + (z - o.z) * u.z > 0.5 else 1.0) * n * NU)
+    else:
+        def dens(n):
+            return Constant3D(n * NU)
+    pl.composition = [Species(getattr(E, ELS[zc]), zc, Maxwellian(dens(n), Constant3D(TI), vion, getattr(E, ELS[zc]).atomic_weight * 1.66053906660e-27))
                       for zc, n, a, c in mix]
     sg, tx, ty, L, clamp, cs = shape
-    beam = Beam(parent=world, transform=xf)
+    beam = Beam(parent=world, transform=(translate(u.x, u.y, u.z) * xf) if moved else xf)
     beam.plasma = pl
     beam.atomic_data = A()
     beam.energy, beam.power, beam.element = ENERGY, POWER, E.deuterium
@@ -65,6 +77,10 @@ def scene(mix, shape, D, step_cm=50, flow=(0, 0, 0)):
     beam.divergence_y = math.degrees(math.atan(ty / D))
     beam.length = L / D
     beam.attenuator = SingleRayAttenuator(step=step_cm / 100.0, clamp_to_zero=bool(clamp), clamp_sigma=float(cs))
+    if moved:
+        beam.density(0.0, 0.0, 0.5 * L / D)          # evaluated where it was built ...
+        beam.transform = xf                          # ... then moved to its final place
+        del calls[:]
     _SCENES[key] = (beam, calls)
     if len(_SCENES) > 40:
         _SCENES.clear()
@@ -75,12 +91,12 @@ def replay(rec, ctx):
     from scipy import constants as K
     from cherab.core.atomic import deuterium
     D = rec["D"]
-    beam, calls = scene(rec["mix"], rec["shape"], D, rec["step_cm"], tuple(rec.get("flow", (0, 0, 0))))
+    beam, calls = scene(rec["mix"], rec["shape"], D, rec["step_cm"], tuple(rec.get("flow", (0, 0, 0))), rec.get("prior", "none"))
     efac = rec["efac"][0] / rec["efac"][1] if "efac" in rec else 1.0
     x, y, z = rec["x"] / D, rec["y"] / D, rec["z"] / D
     viol = []
     nsp = len(rec["mix"])
-    tag = f"{nsp}-species"
+    tag = f"{nsp}-species" + ("[beam-moved]" if rec.get("prior") == "moved" else "")
 
     def bad(what, detail):
         viol.append({"sig": f"{tag}:{what}", "detail": f"{detail} | step={rec['step_cm']}cm flow={rec.get('flow')} mix={rec['mix']} shape={rec['shape']} point=({x},{y},{z})"})
@@ -163,14 +179,14 @@ def run(v):
     classes = {r["class"] for r in cases}
     if classes != {"zero_before_source", "zero_beyond_length", "zero_outside_clamp", "value"} or len(cases) < 1000:
         raise core.MachineryError(f"vacuity: classes {classes}")
-    cases.sort(key=lambda r: json.dumps([r["mix"], r["shape"]]))
+    cases.sort(key=lambda r: json.dumps([r["mix"], r["shape"], r.get("prior")]))
     out = core.fan_out("mbt.c04", "replay", cases, None, chunk=96)
     for r, vs in zip(cases, out):
         for x in vs:
             v.violation(x["sig"], x["detail"], r)
     for x in extra_checks(v):
         v.violation(x["sig"], x["detail"], None)
-    v.add_cases(len(cases) + 2, keys=[json.dumps([r["mix"], r["shape"], r["x"], r["y"], r["z"], r["step_cm"], r["flow"]]) for r in cases])
+    v.add_cases(len(cases) + 2, keys=[json.dumps([r.get("prior"), r["mix"], r["shape"], r["x"], r["y"], r["z"], r["step_cm"], r["flow"]]) for r in cases])
     v.sample(next(r for r in cases if r["class"] == "value" and len(r["mix"]) == 3 and r["x"]))
     v.assumptions += ["uniform plasma along the beam (the attenuation integral is exact); spatially varying profiles are exercised through the C01 scenes (attenuator step sensitivity) only",
                       "mock stopping rates a_i + c_i n_eq, ions at rest; CODATA constants; attenuator steps 0.5, 0.3 and 0.07 m (the last two do not divide the beam lengths); off-node points within the linear-interpolation bound"]
